@@ -1550,8 +1550,15 @@ impl Tree {
         let mut leaf_order = self.get_leaves();
         leaf_order.sort_by(|a, b| self.get(a).unwrap().name.cmp(&self.get(b).unwrap().name));
 
+        if leaf_order
+            .iter()
+            .any(|id| self.get(id).unwrap().name.is_none())
+        {
+            return Err(TreeError::UnnamedLeaves);
+        }
+
         let n = self.n_leaves();
-        let mut pairwise_vec = vec![NaiveSum::zero(); n * (n - 1) / 2];
+        let mut pairwise_vec = vec![NaiveSum::zero(); n * n.saturating_sub(1) / 2];
 
         let leaf_idx_to_leaf_order = self
             .nodes
